@@ -869,6 +869,9 @@ class Exec:
         muts = self._mutables()
         saved = []
         FALSE1 = {}
+        if not hasattr(self, "_skolems"):
+            self._skolems = []
+        sk0 = len(self._skolems)
         outer = {}
         for m in muts:
             outer[id(m)] = (getattr(m, "_saved", None), m.read_in_loop)
@@ -949,22 +952,40 @@ class Exec:
             if not ordered and has_delta and any(p[2] in ("break", "return") for p in exits):
                 raise OutOfSubset("early exit from a loop over an unordered collection that also accumulates")
 
+            # an exit path of the body may itself have taken the exit of an *inner* loop: its condition then mentions the inner
+            # loop's exiting element as a free (Skolem) constant.  "This element exits" means "... for some inner element": the inner
+            # constants are existentially closed before the condition is negated or instantiated at other elements
+            from .logic import symbols_of
+            inner_all = []
+            for c_ in self._skolems[sk0:]:
+                if not any(c_.eq(d_) for d_ in inner_all):
+                    inner_all.append(c_)
+
+            def closed(guard, pcx):
+                body = L.And(guard, *pcx)
+                if not inner_all:
+                    return body
+                names = symbols_of(body)
+                inner = [c_ for c_ in inner_all if c_.decl().name() in names]
+                return L.exists_c(inner, body) if inner else body
+
             def exit_cond_at(ts):
                 parts = []
                 for consts, guard, kind, pcx, deltas, payload in exits:
-                    body = L.And(guard, *pcx)
+                    body = closed(guard, pcx)
                     parts.append(z3.substitute(body, *zip(consts, ts)) if consts else body)
                 return L.Or(*parts)
             choice = self.choose(len(exits) + 1)
             if choice == 0:
                 # no element exits
                 for consts, guard, kind, pcx, deltas, payload in exits:
-                    self.assume(L.forall_c(consts, L.Not(L.And(guard, *pcx))))
+                    self.assume(L.forall_c(consts, L.Not(closed(guard, pcx))))
             else:
                 consts, guard, kind, pcx, deltas, payload = exits[choice - 1]
                 cond = L.And(guard, *pcx)
                 if not self.feasible(cond):
                     raise Infeasible()
+                self._skolems.extend(consts)
                 self.assume(cond)      # the element constants themselves denote the exiting element
                 if ordered:
                     e = consts[0]
